@@ -148,7 +148,7 @@ class Check(PropertyCheck):
     props_module = 'Props.C19'
     models = {'visitor': 'XVisitor.v', 'visitor_ir': 'XVisitorIR.v'}
     needs_gen = True
-    gen_modules = ['gen_c19', 'gen_c19_code']
+    gen_modules = ['gen_c19', 'gen_c19_code', 'gen_c19_stack']
     rule = ('every ordered tree of <= N nodes x every assignment of {none,SkipChildren,SkipSiblings,SkipNode,'
             'SkipDeparture} to its nodes x every sequence of <= 3 extension timings x {walkabout, walk}; '
             'non-trivial = at least one pruning action and one extension; distinct by construction')
@@ -156,6 +156,7 @@ class Check(PropertyCheck):
         'Coq 8.16.1 kernel (coqc, vm_compute for Example witnesses; no native_compute)',
         'no axioms (Print Assumptions: Closed under the global context for every theorem)',
         'extraction: ExtrOcamlBasic only; OCaml 4.13.1; coq/ocaml/driver.ml',
+        'translator harness/gen/gen_c19_stack.py (ASTBuilder.push/pop -> Gen/StackCode.v; Model/StackIR.v; C19_code_push/pop_is_model, C19_code_stack_discipline)',
         'translators harness/gen/gen_c19_code.py (method bodies -> Gen/VisitorCode.v) and harness/gen/gen_c19.py (push/pop/raise sites); '
         'the interpreter Model/VisitorIR.v is the stated meaning of the Python statements it covers (try/except class matching, '
         'assignment, if, for over extension lists / children, raise of a caught exception, return)',
